@@ -1,6 +1,6 @@
 #!/bin/sh
 # tools/try_seed.sh <PROP> <patch.diff> [tier]: apply a seeded change to /repo, run the property's check, undo it.
-P="$1"; PATCH="$2"; TIER="${3:-quick}"
+P="$1"; PATCH="$(readlink -f "$2")"; TIER="${3:-quick}"
 git -C /repo diff --quiet || { echo "/repo is dirty"; exit 2; }
 git -C /repo apply "$PATCH" || { echo "patch does not apply"; exit 2; }
 cd /verif && ./check "$P" --tier "$TIER" > /tmp/try_seed.out 2>&1; rc=$?
